@@ -60,8 +60,31 @@ def gen_unitary_step(rng, dims, pred=None, arity_w=(0.04, 0.46, 0.38, 0.12)):
     raise RuntimeError("no gate fits")
 
 
-def gen_unitary_program(rng, dims, nsteps, pred=None):
-    return [gen_unitary_step(rng, dims, pred) for _ in range(nsteps)]
+def echo_step(rng, steps):
+    """A step that repeats an earlier unitary step (same family, same wires) with exactly one parameter redrawn - or, with
+    some probability, on the same wires in another order: the inputs that caches keyed on too little confuse."""
+    cands = [st for st in steps if st["t"] == "U" and len(st["p"]) >= 1 and all(isinstance(x, float) for x in st["p"])]
+    if not cands:
+        return None
+    st = cands[int(rng.integers(len(cands)))]
+    spec = spec_by_name(st["spec"])
+    fresh = spec.sample(rng)
+    if len(fresh) != len(st["p"]):
+        return None
+    j = int(rng.integers(len(fresh)))
+    p = tuple(fresh[i] if i == j else st["p"][i] for i in range(len(fresh)))
+    w = tuple(st["w"])
+    if len(w) >= 2 and len(set(spec.shape)) == 1 and rng.random() < 0.3:
+        w = tuple(w[i] for i in rng.permutation(len(w)))
+    return {"t": "U", "spec": st["spec"], "p": p, "w": w}
+
+
+def gen_unitary_program(rng, dims, nsteps, pred=None, echo=0.12):
+    steps = []
+    for _ in range(nsteps):
+        st = echo_step(rng, steps) if (steps and rng.random() < echo) else None
+        steps.append(st if st is not None else gen_unitary_step(rng, dims, pred))
+    return steps
 
 
 def make_qubits(rng, dims, kind=None):
